@@ -102,10 +102,10 @@ def main():
             kres["<%s>" % os.path.basename(p)] = {"status": "undecided", "reason": "kspec %r" % e, "unit": os.path.basename(p), "level": "?"}
     groups = {}
     for u in kunit_objs:
-        groups.setdefault(u["dir"], []).append(u)
-    for d, g in sorted(groups.items()):
+        groups.setdefault((u["dir"], " ".join(u["flags"])), []).append(u)    # units with different kani flags are never mixed
+    for gi, ((d, _fl), g) in enumerate(sorted(groups.items())):
         try:
-            res, log = kx.run_unit_group(g, repo=REPO, tier=tier, tag="%s-%s" % (prop, re.sub(r"\W", "_", d)), replay=True)
+            res, log = kx.run_unit_group(g, repo=REPO, tier=tier, tag="%s-%s-%d" % (prop, re.sub(r"\W", "_", d), gi), replay=True)
         except Exception as e:
             res, log = {h["name"]: {"status": "undecided", "reason": "tool-crash %r" % e, "unit": h["unit"], "level": h["level"]} for u in g for h in u["harnesses"]}, []
         kres.update(res); klog += log
